@@ -2030,6 +2030,11 @@ class FileSet:
 
         args = [] if args is None else list(args)
 
+        if isinstance(file_info, str):
+            # A plain filename instead of a FileInfo object. It is no bundle
+            # (iterating over it would give its characters):
+            file_info = fileset.get_info(file_info)
+
         def _return(file_info, return_value):
             """Small helper for return / not return the file info object."""
 
